@@ -21,6 +21,15 @@ import (
 
 const verifRoot = "/verif"
 
+// outRoot is where evidence/ and replays/ are written: /verif, unless VERIF_OUT redirects it (seed testing on scratch
+// copies must not overwrite the evidence of the real tree).
+func outRoot() string {
+	if d := os.Getenv("VERIF_OUT"); d != "" {
+		return d
+	}
+	return verifRoot
+}
+
 // Violation is one concrete disagreement between the implementation and the oracle.
 type Violation struct {
 	Property string         `json:"property"`
@@ -580,7 +589,7 @@ func finish(s Spec, tier string, res *Result, start time.Time) int {
 func writeReplay(v *Violation) string {
 	b, _ := json.MarshalIndent(v, "", " ")
 	h := sha256.Sum256(b)
-	dir := filepath.Join(verifRoot, "replays", v.Property)
+	dir := filepath.Join(outRoot(), "replays", v.Property)
 	os.MkdirAll(dir, 0o755)
 	p := filepath.Join(dir, hex.EncodeToString(h[:6])+".json")
 	os.WriteFile(p, b, 0o644)
@@ -661,15 +670,20 @@ func writeEvidence(s Spec, tier string, res *Result, start time.Time, matched ma
 		"violations":  unmatched,
 	}
 	b, _ := json.MarshalIndent(e, "", " ")
-	os.MkdirAll(filepath.Join(verifRoot, "evidence"), 0o755)
-	os.WriteFile(filepath.Join(verifRoot, "evidence", s.Property+".json"), append(b, '\n'), 0o644)
+	os.MkdirAll(filepath.Join(outRoot(), "evidence"), 0o755)
+	os.WriteFile(filepath.Join(outRoot(), "evidence", s.Property+".json"), append(b, '\n'), 0o644)
 }
 
 // RacePass runs the free-running race-detector pass (go test -race on verif/racepass, untransformed library) and
 // records every report as a violation of kind "data-race". It is auxiliary evidence: sampling, never the deciding step.
 func RacePass(res *Result, runPattern string, count int) map[string]any {
 	start := time.Now()
-	cmd := exec.Command("go", "test", "-race", "-count="+strconv.Itoa(count), "-run", runPattern, "./racepass/")
+	args := []string{"test"}
+	if mf := os.Getenv("VERIF_MODFILE"); mf != "" { // checks running against a scratch copy of the repository
+		args = append(args, "-modfile", mf)
+	}
+	args = append(args, "-race", "-count="+strconv.Itoa(count), "-run", runPattern, "./racepass/")
+	cmd := exec.Command("go", args...)
 	cmd.Dir = filepath.Join(verifRoot, "engine")
 	out, err := cmd.CombinedOutput()
 	text := string(out)
